@@ -43,6 +43,11 @@ def pygen(name, count):
     return dict(args=["py", name, "{seed}", str(count)])
 
 
+def bfs(kind, nkeys, nprios):
+    """closure of the raw states of one queue over nkeys items x nprios priorities, every op from every state"""
+    return dict(args=["bfs", kind, str(nkeys), str(nprios)])
+
+
 def builds(kind, maxn, prios=3):
     return dict(args=["builds", "--kind", kind, "--maxn", str(maxn), "--prios", str(prios)])
 
@@ -56,18 +61,18 @@ PROPS = {
     "C01": dict(
         theorems=None, drop=["t"],
         gens=tiers(
-            [builds("pq", 5), rnd("pq", "core", 2000, 60), rnd("pq", "bulk", 1000, 60, exclude="serde,deser,eq"),
+            [bfs("pq", 3, 3), builds("pq", 5), rnd("pq", "core", 2000, 60), rnd("pq", "bulk", 1000, 60, exclude="serde,deser,eq"),
              rnd("pq", "iter", 800, 50, exclude=NOT_ITERMUT), rnd("pq", "core", 500, 40, prios="extreme"),
              rnd("pq", "core", 300, 300, keys=80, prios="wide")],
-            [builds("pq", 7), rnd("pq", "all", 20000, 80), rnd("pq", "core", 2000, 600, keys=300, prios="wide")]),
+            [bfs("pq", 4, 2), builds("pq", 7), rnd("pq", "all", 20000, 80), rnd("pq", "core", 2000, 600, keys=300, prios="wide")]),
     ),
     "C02": dict(
         theorems=None, drop=["t"],
         gens=tiers(
-            [builds("dpq", 5), rnd("dpq", "core", 2000, 60), rnd("dpq", "bulk", 1000, 60, exclude="serde,deser,eq"),
+            [bfs("dpq", 3, 3), builds("dpq", 5), rnd("dpq", "core", 2000, 60), rnd("dpq", "bulk", 1000, 60, exclude="serde,deser,eq"),
              rnd("dpq", "iter", 800, 50, exclude=NOT_ITERMUT), rnd("dpq", "core", 500, 40, prios="extreme"),
              rnd("dpq", "core", 300, 300, keys=80, prios="wide")],
-            [builds("dpq", 7), rnd("dpq", "all", 20000, 80), rnd("dpq", "core", 2000, 600, keys=300, prios="wide")]),
+            [bfs("dpq", 4, 2), builds("dpq", 7), rnd("dpq", "all", 20000, 80), rnd("dpq", "core", 2000, 600, keys=300, prios="wide")]),
     ),
     "C03": dict(
         theorems=None, drop=["t", "hq"],
@@ -81,7 +86,7 @@ PROPS = {
         theorems=None, drop=["t"],
         gens=tiers(
             [rnd("both", "all", 3000, 60), rnd("both", "iter", 1500, 50), rnd("both", "core", 500, 300, keys=100, prios="wide"),
-             builds("pq", 4), builds("dpq", 4)],
+             builds("pq", 4), builds("dpq", 4), bfs("pq", 3, 2), bfs("dpq", 3, 2)],
             [rnd("both", "all", 30000, 80), builds("pq", 6), builds("dpq", 6)]),
     ),
     "C05": dict(
